@@ -158,6 +158,7 @@ def run(seed, tier, extra_cases=None, use_cache=True):
                 "primfault": any(k.startswith("prim:") and (v or {}).get("k") == "throw" for k, v in resp.items()),
                 "reenter": any((v or {}).get("k") == "reenter" for v in resp.values()),
                 "absent": mode == "a", "ns_exists": bool(dd.get("exists")), "ns_keys": [str(x) for x in dd.get("keys", [])],
+                "ns_preserved": bool(dd.get("preserved", mode == "a")),
             })
             bycase[rrid] = {"name": st["cases"][rid]["name"], "code": st["cases"][rid]["code"],
                             "config": st["cases"][rid]["config"], "scenario": resp, "mode": mode,
